@@ -995,6 +995,18 @@ pub fn base(rng: &mut Xo, prop: &str, seed: u64, index: u64, o: &GenOpts) -> Sce
             params.insert("start_on_goal".into(), 1.0);
         }
     }
+    // the problem definition holds a LIST of start states; the planners plan from the first. A
+    // tenth of the problems (half of those whose first start is rejected) list a second, valid one.
+    let starts = {
+        let mut v = vec![wb.start.clone()];
+        if !o.canonical_only && (rng.chance(0.1) || (wb.start_invalid && rng.chance(0.5))) {
+            geo.set_worlds(&[wb.world.clone()]);
+            if let Some(s2) = sample_valid(&*geo, rng, 0, &|_| true) {
+                v.push(s2);
+            }
+        }
+        v
+    };
     // half of the scenarios define obstacles and goal with the harness's own metric (never the
     // mirrored ones: the Python side measures with the wrapper's `distance`)
     let hm = !o.library_metric && rng.chance(0.5);
@@ -1007,7 +1019,7 @@ pub fn base(rng: &mut Xo, prop: &str, seed: u64, index: u64, o: &GenOpts) -> Sce
         space,
         worlds: vec![wb.world],
         problems: vec![ProblemSpec {
-            starts: vec![wb.start],
+            starts,
             goal: GoalSpec { target: wb.target, radius: wb.goal_radius, sampler, sampler_seed: rng.u64() % 1_000_000, comp: wb.goal_comp, harness_metric: hm },
             world: 0, space: None
         }],
